@@ -70,7 +70,7 @@ def run(prop, tier, seed, replay):
     nontriv = stats.get("release.histories", 0) - stats.get("release.ops_bucket_0-4", 0)
     v.coverage.update(dict(
         evaluations=evals, distinct_nontrivial=max(nontriv, 0),
-        rule="histories = New(window) followed by Push/Roll ops, generated from one SplitMix64 stream (classes: window lengths {1,2,3,255..257,512,4096,4999..5001,8192,65535,65536}+random; byte laws uniform/0xFF/0x00/high-sum/ramp/single; roll runs 1..40, 4999..15003, >20000; push-grown; mixed). Each history is run on both public types in the shipped and the checked profile, compared op-by-op with the exact-sum definition (Rust i128 oracle) and at checkpoints with the extracted Coq model. Non-trivial = history with more than 4 operations (release profile count).",
+        rule="histories = New(window) followed by Push/Roll ops, generated from one SplitMix64 stream (classes: window lengths {1,2,3,255..257,512,4096,4999..5001,8192,65520..65522,65530,65535,65536}+random; byte laws uniform/0xFF/0x00/high-sum/ramp/single/sum congruent to a small value mod 65521; roll runs 1..40, 4999..15003, >20000; push-grown; mixed; every 50th history a periodic stream of 3000 (thorough 12000) slides over a sum-aligned window of 65521..65536 bytes). Each history is run on both public types in the shipped and the checked profile, compared op-by-op with the exact-sum definition (Rust i128 oracle) and at checkpoints with the extracted Coq model. Non-trivial = history with more than 4 operations (release profile count).",
         samples=samples or ["(no samples)"], distribution=stats, disagreements=dis))
     v.assumptions = TB
     return v.finish()
